@@ -91,6 +91,10 @@ def run(ctx):
     r6.expect_min(9)
 
     r7 = rep.rule('C03.7-bounce-hand-over', 'R-ORDER', 'the bounce record is removed only after the notice was queued; failures reading it latch qmail_fail; the message is removed only after injectbounce succeeded')
+    # the status macros every verdict on a child process goes through (wait.h): as functions of the status word
+    from rules import libtab as _lt
+    for inst_, v_ in sorted(_lt.waitmacro_sites(db, 'qmail.c').items()):
+        r7.check(v_[0], inst_, v_[1], v_[2], v_[3])
     ib = qsend.analyse_injectbounce(db, rep)
     attach(r7, ib, only={'ib:bounce-file-removed-only-after-notice-queued-or-triple-bounce', 'ib:returns-1-only-when-bounce-file-is-gone', 'ib:read-failure-latches-qmail_fail'})
     attach(r7, md, only={'md:info-removed-only-after-channels+todo-gone-and-bounce-handled', 'md:bounce-injected-only-when-no-channel-file-and-no-todo'})
